@@ -90,6 +90,14 @@ Theorem eta_prev_infeasible : forall fd fb a o, eta fd fb a = OK o -> 0 < s_max_
 Proof. exact eta_prev_infeasible_lem. Qed.
 Print Assumptions eta_prev_infeasible.
 
+(* the constants read from the source are the ones the property text names: 99 percent of both limits, area to
+   1e-8, filter tolerances not above 1e-8 (a changed factor or tolerance in the source breaks this obligation) *)
+Example C12_constants_as_in_property_text :
+  eta_slew_factor == 99 # 100 /\ eta_grad_factor == 99 # 100 /\ eta_area_tol <= 1 # 100000000 /\
+  eta_amp_tol <= 1 # 100000000 /\ eta_slew1_tol <= 1 # 100000000 /\ eta_slew2_tol <= 1 # 100000000 /\
+  eta_min_dur = 2%Z.
+Proof. repeat split; try reflexivity; discriminate. Qed.
+
 (* ---- non-vacuity: concrete argument sets (the repository's test zoo on a default-like system) ---- *)
 Definition ex_sys : etaSys := {| s_max_grad := 1703000; s_max_slew := 7237920000; s_raster := 1 # 100000 |}.
 Definition ex_args (gs ge ar : Q) : etaArgs := {| e_sys := ex_sys; e_gs := gs; e_ge := ge; e_area := ar |}.
